@@ -177,7 +177,15 @@ def rule_get(ck):
             dflt = d
     ck.ob("C27.head", get, get.node, dflt is not None and q.is_const(dflt, True), "get() sends the body by default (%s=True)" % flag, construct="default of %s" % flag)
 
-    facts = must_facts(get.cfg)
+    from ..x_resolve import widen_facts
+    _mf = must_facts(get.cfg)
+
+    class _Lazy(dict):
+        def __missing__(self, k):
+            self[k] = widen_facts(get, _mf[k])   # named booleans (not_modified = self.should_return_304()) are looked through
+            return self[k]
+
+    facts = _Lazy()
     hdr_sites = [(nd, c) for nd, c in get.cfg.find(lambda x: q.is_call(x, *HEADER_CALLS))]
     ck.floor("C27.head", len(hdr_sites), 6, "status/header calls in StaticFileHandler.get")
     for nd, c in hdr_sites:
@@ -401,8 +409,8 @@ def rule_304(ck):
         dv = q.dotted(others[0]) if others else None
         if dv is None:
             raise AnalysisError("should_return_304: compared date is not a plain variable")
-        st = path_states(fi, ["%s.tzinfo is None" % dv], {"aware": lambda n2: n2.kind == "stmt" and isinstance(n2.ast, ast.Assign) and dv in q.assigned_paths(n2.ast) and isinstance(n2.ast.value, ast.Call) and q.call_attr(n2.ast.value) in ("replace", "astimezone") and (q.kwarg(n2.ast.value, "tzinfo") is not None or n2.ast.value.args)}, follow_exc=False)
-        ck.ob("C27.conditional", fi, cm, satisfied(st, nd, [("fact", "%s.tzinfo is None" % dv, False), ("event", "aware")]) is True, "a naive If-Modified-Since date is made timezone-aware before it is compared with the (aware) modification time")
+        st = path_states(fi, ["%s.tzinfo is None" % dv], {"aware": lambda n2: n2.kind == "stmt" and isinstance(n2.ast, ast.Assign) and dv in q.assigned_paths(n2.ast) and isinstance(n2.ast.value, ast.Call) and q.call_attr(n2.ast.value) == "replace" and q.kwarg(n2.ast.value, "tzinfo") is not None and any(q.dotted(y) in ("datetime.timezone.utc", "timezone.utc", "datetime.UTC", "UTC") for y in ast.walk(expand(fi, q.kwarg(n2.ast.value, "tzinfo"))))}, follow_exc=False)
+        ck.ob("C27.conditional", fi, cm, satisfied(st, nd, [("fact", "%s.tzinfo is None" % dv, False), ("event", "aware")]) is True, "a naive If-Modified-Since date (zone -0000) is tagged as UTC with replace(tzinfo=utc) before it is compared with the aware modification time (astimezone() would read it as local time and can raise)")
         ck.ob("C27.conditional", fi, cm, isinstance(cm.ops[0], ast.GtE) and q.dotted(cm.left) == dv or isinstance(cm.ops[0], ast.LtE) and q.dotted(cm.left) == "self.modified", "not modified means: If-Modified-Since >= modification time (equality included)")
 
     ce = ck.func(WEB, "RequestHandler.check_etag_header")
@@ -461,7 +469,7 @@ def _range_regions(ck):
 
 def rule_range_model(ck):
     """Exhaustive evaluation (finite domain) of parser tail + range block of get() against RFC 9110 14.1.2."""
-    from ..x_eval import Evaluator
+    from ..x_eval import Evaluator, inline_call
     prr, tail, names = _range_regions(ck)
     get = ck.func(WEB, SFH + ".get")
     gcr = ck.func(HU, "_get_content_range")
@@ -510,7 +518,13 @@ def rule_range_model(ck):
     for first in POS:
         for last in POS:
             # parser tail
-            ev = Evaluator()
+            def call0(name, args, kwargs, node, ev0):
+                ok, v = inline_call(ck.repo, prr, name, args, kwargs, node, ev0)
+                if ok:
+                    return v
+                raise AnalysisError("C27.range-model: call %s in the tail of _parse_request_range is not modelled" % name)
+
+            ev = Evaluator(call=call0)
             kind, val = ev.run(tail, {names["first"]: first, names["last"]: last})
             if kind == "raise":
                 parsed = ("raise", val)
@@ -538,6 +552,9 @@ def rule_range_model(ck):
                         return None
                     if name.split(".")[-1] == "_get_content_range":
                         return ev2.call_function(gcr.node, args)
+                    ok_, v_ = inline_call(ck.repo, get, name, args, kwargs, node, ev2)
+                    if ok_:
+                        return v_
                     raise AnalysisError("C27.range-model: call %s in the range block of get() is not modelled" % name)
 
                 ev2 = Evaluator(call=call)
@@ -694,6 +711,7 @@ def _swap_set_headers(root):
 
 
 MUTANTS = [
+    ("seeded C27-adv2: naive If-Modified-Since normalised with astimezone(utc) (local-time reading, may raise)", _w(SFH + ".should_return_304", replace_stmt(lambda st: isinstance(st, ast.If) and "tzinfo" in _src(st.test), lambda st: [parse_stmt("if_since = if_since.astimezone(datetime.timezone.utc)")])), "C27.conditional"),
     ("seeded C27-adv1: parser tail flattened to truthiness ('elif end:'), bytes=0-0 -> (0, 0)", _h("_parse_request_range", lambda root: _flatten_tail(root)), ("C27.none-vs-zero", "C27.range-model")),
     ("none-vs-zero: get() normalises a negative start only 'if start' (truthiness)", _w(SFH + ".get", replace_expr(lambda n: isinstance(n, ast.BoolOp) and _src(n) == "start is not None and start < 0", lambda n: parse_expr("start and start < 0"))), "C27.none-vs-zero"),
     ("none-vs-zero: content length picks 'end - start' only 'if start and end'", _w(SFH + ".get", replace_expr(lambda n: isinstance(n, ast.BoolOp) and _src(n) == "start is not None and end is not None", lambda n: parse_expr("start and end"))), ("C27.none-vs-zero", "C27.range-model")),
